@@ -115,6 +115,32 @@ func init() {
 	add("global (L, CALL)\nL(CALL(func() { return import(\"closure\")() }))\nL(import(\"closure\")())\nL(CALL(import(\"closure\")))\nreturn import(\"closure\")()")
 }
 
+func init() {
+	// a constant pool larger than 255 / 65535-ish entries before, between and after imports: the module constants get
+	// indexes that need the high byte of their 2-byte operands (source and builtin modules)
+	nums := func(from, n int) string {
+		var sb strings.Builder
+		for i := 0; i < n; i++ {
+			if i > 0 {
+				sb.WriteString(", ")
+			}
+			fmt.Fprintf(&sb, "%d", from+i)
+		}
+		return sb.String()
+	}
+	mods := map[string]string{
+		"a": "global L\nL(\"body-a\")\nn := 0\nreturn {name: \"a\", inc: func() { n++; return n }}\n",
+		"b": "global L\nL(\"body-b\")\nn := 100\nreturn {name: \"b\", inc: func() { n++; return n }}\n",
+		"c": "global L\nL(\"body-c\")\nreturn func() { return import(\"b\").inc() }\n",
+	}
+	for _, n := range []int{120, 254, 255, 256, 300, 700} {
+		c12probes = append(c12probes, struct {
+			src  string
+			mods map[string]string
+		}{"global L\nx := import(\"a\")\nt1 := [" + nums(1000, n) + "]\ny := import(\"b\")\nt2 := [" + nums(5000, n) + "]\nz := import(\"c\")\nL(x.name, y.name, x.inc(), y.inc(), z())\nreturn [import(\"a\").inc(), import(\"b\").inc(), len(t1) + len(t2), import(\"b\").name]", mods})
+	}
+}
+
 func c12callGlobal(childImports *int) *ugo.Function {
 	return &ugo.Function{Name: "CALL", ValueEx: func(c ugo.Call) (ugo.Object, error) {
 		if c.Len() < 1 {
